@@ -68,3 +68,13 @@ Definition sizes_ok (c : cfg) (xs bl : list (list Qc)) : Prop :=
   Forall (fun x => length x = cF c * cC c) xs /\ Forall (fun b => length b = cF c * cC c) bl.
 (* batch_size: None or an integer >= 1 *)
 Definition bs_ok (bs : option nat) : Prop := match bs with Some b => 1 <= b | None => True end.
+
+(* additive models: the score is a constant plus one contribution per feature (a function of all the channels of
+   that feature); the exact attribution of feature f is what replacing it by the baseline removes *)
+Open Scope Qc_scope.
+Definition feat_row (C : nat) (z : list Qc) (f : nat) : list Qc := map (fun j => nthq z (f * C + j)) (seq 0 C).
+Definition additive_score (contrib : nat -> list Qc -> Qc) (c0 : Qc) (C F : nat) (z : list Qc) : Qc :=
+  c0 + qsum (map (fun f => contrib f (feat_row C z f)) (seq 0 F)).
+Definition exact_attr (contrib : nat -> list Qc -> Qc) (C F : nat) (x b : list Qc) : list Qc :=
+  map (fun f => contrib f (feat_row C x f) - contrib f (feat_row C b f)) (seq 0 F).
+Close Scope Qc_scope.
